@@ -27,7 +27,7 @@ struct MemFile
 	long n_len = 0, n_seek = 0, n_read = 0, n_write = 0, n_tell = 0 ;
 	long long bytes_read = 0, bytes_written = 0 ;
 	// work budget: total callbacks since reset_budget(); exceeded => flag (checked by harness after each API call)
-	long long budget_calls = 0, budget_limit = -1 ; bool budget_blown = false ; bool budget_fatal = false ;
+	long long budget_calls = 0, budget_limit = -1 ; bool budget_blown = false ; bool budget_fatal = false ; bool budget_trap = false ;
 	// fault plan (C15): fault fires at callback index fault_at (1-based over all callbacks), kind, persistent
 	long cb_index = 0 ; long fault_at = -1 ; int fault_kind = 0 ; bool fault_persistent = false ; bool fault_fired = false ;
 	long fault_consumed = 0 ;
@@ -43,7 +43,7 @@ struct MemFile
 		{	budget_blown = true ;
 			// the library is spinning on the I/O layer without ever returning: the only way out is to end the process.
 			// Exit code 97 is read by the drivers as "unbounded work" for the case in current.case.
-			if (budget_fatal) { static const char msg [] = "VERIF: I/O work budget exceeded (library call does not return)\n" ; if (write (2, msg, sizeof (msg) - 1) < 0) { } _exit (97) ; }
+			if (budget_fatal) { static const char msg [] = "VERIF: I/O work budget exceeded (library call does not return)\n" ; if (write (2, msg, sizeof (msg) - 1) < 0) { } if (budget_trap) __builtin_trap () ; _exit (97) ; }
 		}
 		if (fault_at > 0 && (cb_index == fault_at || (fault_persistent && fault_fired && cb_index > fault_at)))
 		{	fault_fired = true ; return true ; }
